@@ -185,6 +185,8 @@ class simplify_chained_calls(FuncADLNodeTransformer):
 
     def __init__(self):
         self._arg_stack = argument_stack()
+        # The `obj.method` nodes of the method calls we are inside of
+        self._method_names: List[ast.Attribute] = []
 
     def _visit_substituted(self, node: ast.AST) -> ast.AST:
         """Visit a node built out of parts that have already been visited. Every pending
@@ -549,6 +551,13 @@ class simplify_chained_calls(FuncADLNodeTransformer):
                 return self.visit(unique_func.body)
         elif _is_method_call_on_first(call_node):
             return self.select_method_call_on_first(call_node)
+        elif isinstance(call_node.func, ast.Attribute):
+            # The attribute is the name of the method that is called, not a field.
+            self._method_names.append(call_node.func)
+            try:
+                return FuncADLNodeTransformer.visit_Call(self, call_node)
+            finally:
+                self._method_names.pop()
         else:
             return FuncADLNodeTransformer.visit_Call(self, call_node)
 
@@ -720,6 +729,18 @@ class simplify_chained_calls(FuncADLNodeTransformer):
             return self.visit_Attribute_Of_First(node.value.args[0], node.attr)  # type: ignore
 
         visited_value = self.visit(node.value)
+        is_method_name = any(node is f for f in self._method_names)
+        if _is_first_of(visited_value) and not is_method_name:
+            # It turned into a `First(...)` only now (substitution, or a projection inside
+            # it): move the attribute past it as well. Its parts have been visited.
+            a = arg_name()
+            select = make_Select(
+                visited_value.args[0],  # type: ignore
+                lambda_build(
+                    a, ast.Attribute(value=ast.Name(a, ast.Load()), attr=node.attr, ctx=ast.Load())
+                ),
+            )
+            return self._visit_substituted(function_call("First", [select]))
         if isinstance(visited_value, ast.Dict):
             found = self.visit_Subscript_Dict_with_value(visited_value, node.attr)
             if found is not None:
